@@ -1033,7 +1033,8 @@ def sample_flags(rng, c, C):
                     pick.discard(d)
             if pick:
                 c["cache_pre"] = {n: sorted(pick)}
-        if rng.random() < 0.15:
+        if rng.random() < 0.15 and not c.get("cache_lacks"):
+            # (not together with a cache that relies on the remote for an object: emptying the remote loses it)
             c["wipe"] = [rng.choice(C.indexed or C.remotes)]
 
 
